@@ -12,6 +12,7 @@ import (
 	"strconv"
 	"strings"
 	"sync"
+	"sync/atomic"
 
 	"flamingo.me/pugtemplate/pugjs"
 )
@@ -60,6 +61,8 @@ type c08Case struct {
 	Stagger   uint64            `json:"stagger"` // seed of the stagger plans; 0 = no deliberate staggering
 	Reps      int               `json:"reps"`    // renders per goroutine and round (0 = 1)
 	Cold      bool              `json:"cold"`    // no sequential renders before the storm in the storm's process
+	Count     bool              `json:"count"`   // count the Render calls in flight (obs.in_flight)
+	Keep      int               `json:"keep"`    // at most this many distinct results are kept per goroutine and round (0 = all)
 	Phase     string            `json:"phase,omitempty"` // set by the harness itself for its children: "seq" | "conc"
 }
 
@@ -82,6 +85,8 @@ type c08Obs struct {
 	RaceBuild  bool             `json:"race_build"`
 	Procs      int              `json:"procs"`
 	Stagger    c08StaggerStats  `json:"stagger"` // what the stagger points did, summed over the rounds
+	InFlight   int              `json:"in_flight"` // most Render calls running at the same moment
+	Dropped    int              `json:"dropped"`   // further distinct results beyond `keep` (each differs from a kept one)
 }
 
 func init() {
@@ -127,12 +132,29 @@ func raceSeen(before int) bool {
 	return err == nil && fi.Size() > int64(before)
 }
 
+// Render calls in flight (between the call and the result having been read), and the most seen since the
+// last reset: the storms of many goroutines report how many renders really were under way together.
+// Counted only in cases that ask for it (count = true, the storms of many goroutines): the atomic operations
+// order the renders for the race detector, which the other storms do not want at the entry of Render.
+var c08Running, c08MaxRunning int32
+var c08Count bool // set per case, before its goroutines start
+
 func sameResult(a, b renderResult) bool { return a.Class == b.Class && a.Out == b.Out }
 
 // c08Render is one call: Engine.Render with the call's own context, then (after the "read"
 // stagger point: the caller is not obliged to read at once) reading the returned reader.
 func c08Render(e *pugjs.Engine, ctx context.Context, s *c08Script, name string, data interface{}) (res renderResult) {
 	defer s.leave()
+	if c08Count {
+		n := atomic.AddInt32(&c08Running, 1)
+		for {
+			m := atomic.LoadInt32(&c08MaxRunning)
+			if n <= m || atomic.CompareAndSwapInt32(&c08MaxRunning, m, n) {
+				break
+			}
+		}
+		defer atomic.AddInt32(&c08Running, -1)
+	}
 	defer func() {
 		if r := recover(); r != nil {
 			res = renderResult{Class: clsPanic}
@@ -170,6 +192,7 @@ func runC08(c c08Case) (obs c08Obs, err error) {
 	}
 	obs.RaceBuild = raceEnabled
 	obs.Procs = runtime.GOMAXPROCS(0)
+	c08Count = c.Count
 	before := len(raceLog())
 
 	e := newEngine(dir, c.Debug, c.RateLimit, c08Funcs())
@@ -209,9 +232,11 @@ func runC08(c c08Case) (obs c08Obs, err error) {
 	if reps < 1 {
 		reps = 1
 	}
-	for r := 0; r < c.Rounds && c.Phase != "seq" && !(r > 0 && raceSeen(before)); r++ {
+	decided := false // keep > 0: some goroutine got two different results for one job; the case is decided
+	for r := 0; r < c.Rounds && c.Phase != "seq" && !(r > 0 && raceSeen(before)) && !decided; r++ {
 		res := make([][]c08Distinct, n)
 		datas := make([]interface{}, n)
+		var more [][]interface{} // count = true: the values of the repetitions, built before the storm
 		ctxs := make([]context.Context, n)
 		scripts := make([]*c08Script, n)
 		berr := make([]error, n)
@@ -228,7 +253,20 @@ func runC08(c c08Case) (obs c08Obs, err error) {
 			}
 			ctxs[g], scripts[g] = c08Context(c.Jobs[c.Calls[g]].Ctx, meet, seed)
 		}
+		if c.Count { // the storm of many goroutines is to consist of renders, not of the harness building data
+			more = make([][]interface{}, n)
+			for g := 0; g < n; g++ {
+				more[g] = make([]interface{}, reps)
+				for k := 1; k < reps; k++ {
+					if more[g][k], err = c08Build(c.Jobs[c.Calls[g]].Data, env); err != nil {
+						return obs, err
+					}
+				}
+			}
+		}
 		var ready, done sync.WaitGroup
+		var dropped, extras int32
+		atomic.StoreInt32(&c08MaxRunning, 0)
 		start := make(chan struct{})
 		ready.Add(n)
 		done.Add(n)
@@ -239,7 +277,9 @@ func runC08(c c08Case) (obs c08Obs, err error) {
 				<-start
 				for k := 0; k < reps && !(k > 0 && raceSeen(before)); k++ {
 					d := datas[g]
-					if k > 0 { // a repetition renders a value of its own, too
+					if k > 0 && more != nil {
+						d = more[g][k]
+					} else if k > 0 { // a repetition renders a value of its own, too
 						if d, berr[g] = c08Build(c.Jobs[c.Calls[g]].Data, env); berr[g] != nil {
 							return
 						}
@@ -253,7 +293,12 @@ func runC08(c c08Case) (obs c08Obs, err error) {
 							break
 						}
 					}
-					if !seen {
+					// with a bound on the kept results: the first `keep` distinct ones (two distinct results already
+					// show that one of them is not the result of the render alone)
+					// (and of second results at most 16 per round over all goroutines: outputs are kilobytes)
+					if !seen && c.Keep > 0 && (len(res[g]) >= c.Keep || len(res[g]) >= 1 && atomic.AddInt32(&extras, 1) > 16) {
+						atomic.AddInt32(&dropped, 1)
+					} else if !seen {
 						res[g] = append(res[g], c08Distinct{x, 1})
 					}
 				}
@@ -273,6 +318,11 @@ func runC08(c c08Case) (obs c08Obs, err error) {
 			}
 		}
 		obs.Conc = append(obs.Conc, res)
+		obs.Dropped += int(dropped)
+		decided = c.Keep > 0 && extras > 0
+		if m := int(atomic.LoadInt32(&c08MaxRunning)); m > obs.InFlight {
+			obs.InFlight = m
+		}
 		obs.Stagger.Points += meet.st.Points
 		obs.Stagger.Holds += meet.st.Holds
 		obs.Stagger.Released += meet.st.Released
@@ -362,6 +412,7 @@ func runC08Cold(c c08Case) (obs c08Obs, err error) {
 	}
 	obs.Load = b.Load
 	obs.Conc, obs.SeqAfter, obs.Stagger = b.Conc, b.SeqAfter, b.Stagger
+	obs.InFlight, obs.Dropped = b.InFlight, b.Dropped
 	obs.Races += b.Races
 	obs.RaceReport += b.RaceReport
 	obs.GoEqual = len(obs.SeqAfter) == len(obs.Seq)
